@@ -252,7 +252,8 @@ def addr_case(res, W, rng, lst, setting, slow=False, connect_timeout=None):
     net_ = H.make_net()
     ips = [f"198.51.100.{i + 1}" for i in range(len(lst))]
     if setting == 2:
-        ips = [f"2001:db8::{i + 1}" for i in range(len(lst))]
+        # (every other one link-local: its socket address carries a scope id)
+        ips = [(f"fe80::{i + 1}" if i % 2 else f"2001:db8::{i + 1}") for i in range(len(lst))]
     if setting == 1:
         # dual-stack answer: IPv6 and IPv4 addresses alternate, IPv6 first (the usual resolver ordering)
         ips = [(f"2001:db8::{i + 1}" if i % 2 == 0 else f"198.51.100.{i + 1}") for i in range(len(lst))]
@@ -333,6 +334,9 @@ def addr_case(res, W, rng, lst, setting, slow=False, connect_timeout=None):
 
     if attempts != exp_attempts:
         bad("address-order", f"attempted {attempts}, expected {exp_attempts}", first_outcome=lst[0])
+    elif net_.connect_addresses != net_.resolved_addresses[:len(net_.connect_addresses)]:
+        # the socket address goes to connect() as the resolver returned it (for IPv6: with flow info and scope id)
+        bad("address-order", f"connect() was given {net_.connect_addresses}, the resolver had returned {net_.resolved_addresses}", first_outcome=lst[0], component="sockaddr")
     if exp_result[0] == "connected":
         if kind != "ret":
             bad("address-loop-aborted", f"raised {type(exc).__name__}: {exc} although {exp_result[1]} accepts", exc_type=type(exc).__name__)
